@@ -4,6 +4,7 @@
   without knowing the scene) ⇔ every visible model is a point mesh or has a multiple of three indices.
 -/
 import PolyVerif.Props.C06Topo
+import PolyVerif.Props.C06Glb
 
 namespace PolyVerif
 namespace C06
@@ -146,6 +147,30 @@ theorem gltf_doc_mode_count_iff (s : Scene) (w : W) (hs : SceneOK s) (h : writeS
   rw [hprims]
   simp only [List.all_cons, List.all_nil, Bool.and_true, hidx, hx, hmode, hcount]
   exact (modeCountOK_written m.topo m.indices.length).mpr (hall md hmd m hm)
+
+/-! ### the binary container carries the buffer the document speaks about -/
+
+/-- WriteBinary END TO END.  For every well-formed scene the writer accepts and whatever JSON text it serialises the
+    document to (file < 4 GiB): an independent GLB reader gets back the JSON text (plus blank padding) and a BIN payload whose
+    first `buffers[0].byteLength` bytes are exactly the buffer all accessor statements (`valid`, `carriesScene`) are about; a
+    document without buffer comes with no BIN chunk. -/
+theorem glb_carries_buffer (s : Scene) (w : W) (hs : SceneOK s) (h : writeScene s = .ok w) (json : List UInt8)
+    (hsz : (glbFrame json w.buf).length < 2 ^ 32) :
+    ∃ j b, glbParse (glbFrame json w.buf) = some (j, b) ∧ j.take json.length = json
+      ∧ (match w.doc.bufLen with
+         | some n => b.take n = w.buf ∧ n = w.buf.length
+         | none => b = [] ∧ w.buf = []) := by
+  have hb := (scene_inv s w hs h).bytes
+  refine ⟨_, _, glb_parse_write json w.buf hsz, List.take_left' rfl, ?_⟩
+  show (match (if w.bytesWritten > 0 then some w.bytesWritten else none) with
+         | some n => _
+         | none => _)
+  by_cases hp : w.bytesWritten > 0
+  · rw [if_pos hp]
+    exact ⟨by rw [hb, List.take_left' rfl], hb⟩
+  · rw [if_neg hp]
+    have : w.buf = [] := List.eq_nil_of_length_eq_zero (by omega)
+    simp [this, pad4]
 
 end C06
 end PolyVerif
